@@ -28,7 +28,35 @@ import (
 
 func init() { register("c16", cmdC16) }
 
-const c16Map = "mq" // name of the map argument; not in any name pool of the program generator
+// name of the map argument; not in any name pool of the program generator (history mode alternates two names)
+var c16Map = "mq"
+
+// the generators a case runs on (default: the shared instances of c01Setup; history mode: the generators of the
+// history), and the constants registered on them so far beyond value.New()'s own (newest first)
+var c16On, c16Off *value.FunctionGenerator
+
+type c16Const struct {
+	Name  string `json:"name"`
+	Value *Tree  `json:"value"`
+}
+
+var c16Extra []c16Const
+
+func c16ExtraNames() []string {
+	var ns []string
+	for _, c := range c16Extra {
+		ns = append(ns, c.Name)
+	}
+	return ns
+}
+
+func c16ExtraCoq() string {
+	var ps []string
+	for _, c := range c16Extra {
+		ps = append(ps, "("+CoqStr(c.Name)+", "+c.Value.CoqValue()+")")
+	}
+	return CoqList(ps)
+}
 
 var c16Consts = []string{"pi", "true", "false"}
 
@@ -46,7 +74,7 @@ type c16Qual struct {
 }
 
 func c16IsAttr(name string, bound []string) bool {
-	if pgContains(bound, name) || name == c16Map || pgContains(c16Consts, name) || c01Statics[name] {
+	if pgContains(bound, name) || name == c16Map || pgContains(c16Consts, name) || pgContains(c16ExtraNames(), name) || c01Statics[name] {
 		return false
 	}
 	return true
@@ -265,11 +293,13 @@ type c16Program struct {
 	P        *pgProgram `json:"program"`
 	Reprs    []string   `json:"reprs"`              // representation of the map argument per tuple
 	Explicit []string   `json:"explicit,omitempty"` // forms in which the program mentions the map argument by name
+	Hist     *c16Hist   `json:"history,omitempty"`  // the case is one GenerateWithMap of this history (replay runs the whole history)
 }
 
 type c16Run struct {
-	sum *Summary
-	cw  *CaseWriter
+	sum    *Summary
+	cw     *CaseWriter
+	lastWM [2][]c01ImplOut // outcomes of the last GenerateWithMap case (optimizer off, on)
 }
 
 func c16Signature(uses []c16Use) string {
@@ -316,10 +346,10 @@ func (r *c16Run) runCase(cp *c16Program, id int) {
 			c01KeepMessages = true
 		}
 	})
-	wmOff := c16RunImpl(c01FgOff, text, true, maps)
-	wmOn := c16RunImpl(c01FgOn, text, true, maps)
-	plOff := c16RunImpl(c01FgOff, textQ, false, maps)
-	plOn := c16RunImpl(c01FgOn, textQ, false, maps)
+	wmOff := c16RunImpl(c16Off, text, true, maps)
+	wmOn := c16RunImpl(c16On, text, true, maps)
+	plOff := c16RunImpl(c16Off, textQ, false, maps)
+	plOn := c16RunImpl(c16On, textQ, false, maps)
 	toks1, a1, err1 := c16Parse(text, true)
 	toks2, a2, err2 := c16Parse(textQ, false)
 	sum.Evaluations++
@@ -429,7 +459,7 @@ func (r *c16Run) runCase(cp *c16Program, id int) {
 		}
 		return "(Some " + term + ")"
 	}
-	human := map[string]any{"text": text, "qualified": textQ, "map_name": c16Map, "maps": hmaps,
+	human := map[string]any{"text": text, "qualified": textQ, "map_name": c16Map, "maps": hmaps, "constants_registered_so_far": c16ExtraNames(),
 		"GenerateWithMap": hwm, "Generate_qualified": hpl, "signature": sig, "repro": cp}
 	if err1 != nil {
 		human["parse_error_withmap"] = err1.Error()
@@ -441,9 +471,10 @@ func (r *c16Run) runCase(cp *c16Program, id int) {
 	if deep {
 		sum.Sample(map[string]any{"text": text, "qualified": textQ, "GenerateWithMap": hwm})
 	}
-	r.cw.Add(fmt.Sprintf("(%d, mkQ vops vunary vconsts vfuncs %s\n  %s\n  %s\n  %s %s %s,\n  (%s, %s, %s))", id, CoqStr(c16Map),
-		c16CoqToks(toks1), c16CoqToks(toks2), tq.CoqT([]string{c16Map}, c01Statics), CoqBool(lazy), CoqBool(excl),
+	r.cw.Add(fmt.Sprintf("(%d, mkQ vops vunary vconsts vfuncs %s\n  %s\n  %s\n  %s %s %s %s,\n  (%s, %s, %s))", id, CoqStr(c16Map),
+		c16CoqToks(toks1), c16CoqToks(toks2), tq.CoqT([]string{c16Map}, c01Statics), CoqBool(lazy), CoqBool(excl), c16ExtraCoq(),
 		opt(a1, err1), opt(a2, err2), CoqList(tuples)))
+	r.lastWM = [2][]c01ImplOut{wmOff, wmOn}
 
 	// ---- Go-side oracle
 	viol := func(what, exp, obs string) {
@@ -465,6 +496,203 @@ func (r *c16Run) runCase(cp *c16Program, id int) {
 				break
 			}
 		}
+	}
+}
+
+// ---------- histories of one generator ----------
+
+// A history is a sequence of operations on ONE generator object: AddConstant(name, value) with names drawn from the
+// attribute names of the programs (so that constants come to shadow attributes) and from the pool of local names,
+// and GenerateWithMap(exp, mapName) with one or two alternating map names.  After every GenerateWithMap the case
+// is checked as always, but ON THE GENERATOR OF THE HISTORY at that point: against Generate of the text qualified
+// relative to the constants registered SO FAR, against the parser model with exactly these constants in the chain,
+// and against the reference semantics with these constants in the environment.  Functions generated EARLIER are
+// evaluated again after every later AddConstant: they must not change.
+type c16HistOp struct {
+	Const   *c16Const   `json:"const,omitempty"`
+	Prog    *c16Program `json:"prog,omitempty"`
+	MapName string      `json:"map_name,omitempty"`
+}
+
+type c16Hist struct {
+	Ops []c16HistOp `json:"ops"`
+}
+
+func c16NewDump() *value.FunctionGenerator {
+	old := c16Dump
+	c16DumpSetup()
+	d := c16Dump
+	c16Dump = old
+	return d
+}
+
+func c16ConstValue(like *Tree, k int) *Tree {
+	switch like.Kind {
+	case "int":
+		return &Tree{Kind: "int", I: 1000 + k}
+	case "float":
+		return &Tree{Kind: "float", F: 0.5 + float64(k)}
+	case "str":
+		return &Tree{Kind: "str", S: fmt.Sprintf("const%d", k)}
+	case "bool":
+		return &Tree{Kind: "bool", B: !like.B}
+	}
+	return like
+}
+
+func (r *Rng) c16GenHistory(maxNodes int) *c16Hist {
+	nOps := 4 + r.Pick(9)
+	mapNames := []string{"mq"}
+	if r.Chance(0.5) {
+		mapNames = append(mapNames, "mr")
+	}
+	// the programs first: the constants are named after their attributes
+	var progs []*c16Program
+	for len(progs) < nOps {
+		p := pgGenProgram(r, c01Statics, maxNodes)
+		cp := &c16Program{P: p}
+		for range p.Tuples {
+			cp.Reprs = append(cp.Reprs, mapReprs[r.Pick(len(mapReprs))])
+		}
+		progs = append(progs, cp)
+	}
+	h := &c16Hist{}
+	gi, k := 0, 0
+	for i := 0; i < nOps; i++ {
+		if i > 0 && r.Chance(0.4) {
+			// AddConstant: mostly the name of an attribute of a program generated later (or earlier), else a local name
+			var name string
+			var like *Tree
+			if r.Chance(0.75) {
+				cp := progs[(gi+r.Pick(2))%len(progs)]
+				j := r.Pick(len(cp.P.ArgNames))
+				name, like = cp.P.ArgNames[j], cp.P.Tuples[0][j]
+			} else {
+				name, like = pgNamePool[r.Pick(len(pgNamePool))], &Tree{Kind: "int"}
+			}
+			if c01Statics[name] || name == "true" || name == "false" || pgContains(mapNames, name) {
+				continue
+			}
+			k++
+			h.Ops = append(h.Ops, c16HistOp{Const: &c16Const{Name: name, Value: c16ConstValue(like, k)}})
+			continue
+		}
+		h.Ops = append(h.Ops, c16HistOp{Prog: progs[gi%len(progs)], MapName: mapNames[r.Pick(len(mapNames))]})
+		gi++
+	}
+	return h
+}
+
+type c16Earlier struct {
+	text    string
+	mapName string
+	fOn     funcGen.Func[value.Value]
+	fOff    funcGen.Func[value.Value]
+	maps    []*Tree
+	then    [2][]c01ImplOut
+	caseID  int
+}
+
+func (run *c16Run) runHistory(h *c16Hist, id *int) {
+	sum := run.sum
+	saveOn, saveOff, saveDump, saveMap, saveExtra := c16On, c16Off, c16Dump, c16Map, c16Extra
+	defer func() { c16On, c16Off, c16Dump, c16Map, c16Extra = saveOn, saveOff, saveDump, saveMap, saveExtra }()
+	c16On, c16Off, c16Dump, c16Extra = value.New(), value.New(), c16NewDump(), nil
+	c16Off.SetOptimizer(nil)
+	sum.Count("history_length", fmt.Sprint(len(h.Ops)))
+	var earlier []c16Earlier
+	usedMaps := map[string]bool{}
+	for _, op := range h.Ops {
+		if op.Const != nil {
+			sum.Count("history_ops", "AddConstant")
+			v := op.Const.Value.Build()
+			c16On.AddConstant(op.Const.Name, v)
+			c16Off.AddConstant(op.Const.Name, v)
+			c16Dump.AddConstant(op.Const.Name, value.String("c:"+op.Const.Name))
+			c16Extra = append([]c16Const{*op.Const}, c16Extra...)
+			// functions generated earlier keep their meaning
+			for _, e := range earlier {
+				for i, m := range e.maps {
+					now := [2]c01ImplOut{c01EvalForced(e.fOff, []value.Value{m.Build()}), c01EvalForced(e.fOn, []value.Value{m.Build()})}
+					for o := 0; o < 2; o++ {
+						if e.then[o][i].Kind != "generr" && !c01SameOutcome(e.then[o][i], now[o]) {
+							human := map[string]any{"text": e.text, "map_name": e.mapName, "added_constant": op.Const.Name, "signature": "earlier function changed by AddConstant"}
+							sum.GoViolations = append(sum.GoViolations, GoViolation{CaseID: e.caseID, What: "a function generated with GenerateWithMap changed its outcome after a later AddConstant",
+								Sig: "earlier function changed by AddConstant", Human: human, Expected: e.then[o][i].Human, Observed: now[o].Human})
+						}
+					}
+				}
+				sum.Count("history_checks", "earlier function re-evaluated after AddConstant")
+			}
+			continue
+		}
+		sum.Count("history_ops", "GenerateWithMap")
+		c16Map = op.MapName
+		*id++
+		cp := *op.Prog
+		cp.Hist = h
+		shadow := false
+		for _, n := range cp.P.ArgNames {
+			if pgContains(c16ExtraNames(), n) {
+				shadow = true
+			}
+		}
+		switch {
+		case shadow && usedMaps[op.MapName]:
+			sum.Count("history_generate", "a constant registered AFTER an earlier GenerateWithMap with this map name shadows an attribute")
+		case shadow:
+			sum.Count("history_generate", "a constant shadows an attribute (first use of the map name)")
+		default:
+			sum.Count("history_generate", "no constant named like an attribute")
+		}
+		sum.Count("history_constants_so_far", fmt.Sprint(len(c16Extra)))
+		usedMaps[op.MapName] = true
+		run.runCase(&cp, *id)
+		// keep the functions for later re-evaluation
+		e := c16Earlier{text: cp.P.T.Render(pgPosLet), mapName: op.MapName, then: run.lastWM, caseID: *id}
+		func() {
+			defer func() { recover() }()
+			var err1, err2 error
+			e.fOn, _, err1 = c16On.GenerateWithMap(e.text, op.MapName)
+			e.fOff, _, err2 = c16Off.GenerateWithMap(e.text, op.MapName)
+			if err1 == nil && err2 == nil {
+				for i, tu := range cp.P.Tuples {
+					e.maps = append(e.maps, &Tree{Kind: "map", Keys: cp.P.ArgNames, Items: tu, Repr: cp.Reprs[i%len(cp.Reprs)]})
+				}
+				earlier = append(earlier, e)
+			}
+		}()
+	}
+}
+
+func c16HistoryCorpus() []*c16Hist {
+	ti := func(i int) *Tree { return &Tree{Kind: "int", I: i} }
+	tl := func(is ...int) *Tree {
+		t := &Tree{Kind: "list", Repr: "eager"}
+		for _, i := range is {
+			t.Items = append(t.Items, ti(i))
+		}
+		return t
+	}
+	names := []string{"a", "rate", "l"}
+	tuples := [][]*Tree{{ti(2), ti(7), tl(1, 2, 3)}, {ti(-1), ti(3), tl()}}
+	mk := func(t *pgNode) *c16Program {
+		return &c16Program{P: &pgProgram{T: t, ArgNames: names, Tuples: tuples, Stream: "corpus"}, Reprs: []string{"listmap", "real"}}
+	}
+	a, rate := func() *pgNode { return pgNId("a") }, func() *pgNode { return pgNId("rate") }
+	first := mk(pgNOp("+", a(), pgNInt(1)))
+	top := mk(pgNOp("*", a(), rate()))
+	clo := mk(pgNMethod("method", pgNId("l"), "map", pgNClo([]string{"e"}, pgNOp("*", pgNId("e"), rate()))))
+	fn := mk(pgNFunc("f", []string{"n"}, pgNIf(pgNOp("<=", pgNId("n"), pgNInt(0)), rate(), pgNOp("+", a(), pgNCall("closure", pgNId("f"), pgNOp("-", pgNId("n"), pgNInt(1))))),
+		pgNCall("closure", pgNId("f"), pgNInt(2))))
+	loc := mk(pgNLet("rate", pgNInt(5), pgNOp("*", a(), rate())))
+	c := &c16Const{Name: "rate", Value: ti(10)}
+	return []*c16Hist{
+		// GenerateWithMap; AddConstant("rate", 10); GenerateWithMap of programs using rate - same and other map name
+		{Ops: []c16HistOp{{Prog: first, MapName: "mq"}, {Prog: top, MapName: "mq"}, {Const: c}, {Prog: top, MapName: "mq"}, {Prog: clo, MapName: "mq"},
+			{Prog: fn, MapName: "mq"}, {Prog: loc, MapName: "mq"}, {Prog: top, MapName: "mr"}}},
+		// the constant first
+		{Ops: []c16HistOp{{Const: c}, {Prog: top, MapName: "mq"}, {Const: &c16Const{Name: "a", Value: ti(100)}}, {Prog: top, MapName: "mq"}, {Prog: top, MapName: "mr"}}},
 	}
 }
 
@@ -532,12 +760,13 @@ func c16Corpus() []*c16Program {
 func cmdC16(seed int64, tier, outDir string) {
 	c01Setup()
 	c16DumpSetup()
-	n, maxNodes := 360, 36
+	c16On, c16Off = c01FgOn, c01FgOff
+	n, maxNodes, nHist := 200, 36, 30
 	if tier == "thorough" {
-		n, maxNodes = 30000, 100
+		n, maxNodes, nHist = 30000, 100, 3000
 	}
 	sum := NewSummary("C16", seed, tier)
-	sum.Rule = "programs of the C01 generator (operators, let, func with recursion, closures up to 3+ levels, if, switch, try, list/map literals, methods, static functions) whose arguments all become attributes of one map argument; attribute uses at every nesting level (top level, inside 1..3+ closures, inside func bodies, inside lets within call arguments); attribute names that collide with constants (pi), static functions (sqr) and local bindings; about a third of the programs also MENTION THE MAP ARGUMENT BY NAME next to the implicit uses, at every nesting level (mq.x, mq.get(\"x\"), let k = mq; k.x, the map returned from a closure, passed to a function, \"x\" ~ mq, mq.size()) - qualification leaves those as they are; 3 maps per program, each in a representation of harness/tree.go (listmap, real, put, merge, replace, eval, map-method, funcmap, funcmap-absent, tomap); GenerateWithMap(exp) against Generate(exp with every free attribute written (m.x)), optimizer on and off. Distinct non-trivial: program texts with >= 1 attribute use inside a closure or func body that generate without error"
+	sum.Rule = "programs of the C01 generator (operators, let, func with recursion, closures up to 3+ levels, if, switch, try, list/map literals, methods, static functions) whose arguments all become attributes of one map argument; attribute uses at every nesting level (top level, inside 1..3+ closures, inside func bodies, inside lets within call arguments); attribute names that collide with constants (pi), static functions (sqr) and local bindings; about a third of the programs also MENTION THE MAP ARGUMENT BY NAME next to the implicit uses, at every nesting level (mq.x, mq.get(\"x\"), let k = mq; k.x, the map returned from a closure, passed to a function, \"x\" ~ mq, mq.size()) - qualification leaves those as they are; 3 maps per program, each in a representation of harness/tree.go (listmap, real, put, merge, replace, eval, map-method, funcmap, funcmap-absent, tomap); GenerateWithMap(exp) against Generate(exp with every free attribute written (m.x)), optimizer on and off; plus HISTORIES of one generator object (4..12 operations: AddConstant with names of attributes and locals, GenerateWithMap with one or two alternating map names): every GenerateWithMap is checked on the generator of the history against Generate of the text qualified relative to the constants registered so far, the parser model and the reference semantics with exactly these constants, and functions generated earlier are re-evaluated after every later AddConstant. Distinct non-trivial: program texts with >= 1 attribute use inside a closure or func body that generate without error"
 	vops, vun, _, _ := c16Dump.GetParser().VerifParseConfig()
 	var funcs []string
 	for f := range c01Statics {
@@ -563,7 +792,12 @@ func cmdC16(seed int64, tier, outDir string) {
 		if err := json.Unmarshal(loadReplayCase(), &cp); err != nil {
 			fatal("replay case: %v", err)
 		}
-		run.runCase(&cp, 1)
+		if cp.Hist != nil {
+			id := 0
+			run.runHistory(cp.Hist, &id)
+		} else {
+			run.runCase(&cp, 1)
+		}
 		finish()
 		return
 	}
@@ -573,8 +807,14 @@ func cmdC16(seed int64, tier, outDir string) {
 		id++
 		run.runCase(cp, id)
 	}
+	for _, h := range c16HistoryCorpus() {
+		run.runHistory(h, &id)
+	}
 	sum.Extra["corpus_cases"] = id
 	r := NewRng(seed)
+	for i := 0; i < nHist*optBoost; i++ {
+		run.runHistory(r.c16GenHistory(maxNodes), &id)
+	}
 	for i := 0; i < n; i++ {
 		id++
 		p := pgGenProgram(r, c01Statics, maxNodes)
